@@ -469,6 +469,9 @@ fn left_pad_and_prefix(text: &str) -> String {
     for (n, line) in text.lines().enumerate() {
         if line.is_empty() {
             result.push_str("\n");
+        } else if n == 0 && line.len() >= 3 && line.chars().all(|c| c == '-') {
+            // "- ---" as a whole is a thematic break, not an item that holds one
+            result.push_str(&format!("- {}\n", "*".repeat(line.len())));
         } else if n == 0 {
             result.push_str(&format!("- {}\n", line));
         } else {
